@@ -891,7 +891,10 @@ fn run_base(b: &Value) -> Vec<Value> {
         let mut wm = mu["w"].clone();
         wm["p"] = json!(pos_of(wm["p"].as_u64().unwrap()));
         wm["p2"] = json!(pos_of(wm["p2"].as_u64().unwrap()));
-        let atx = mutate(&w, &canon, &m, n);
+        let mut m2 = mu["m2"].clone();
+        m2["p"] = json!(pos_of(m2["p"].as_u64().unwrap()));
+        m2["p2"] = json!(pos_of(m2["p2"].as_u64().unwrap()));
+        let atx = mutate(&w, &mutate(&w, &canon, &m, n), &m2, n);
         let base_outs = if wm["base"] == "canon" { &canon.outs } else { &atx.outs };
         let ws = mutate_ws(base_outs.iter().map(ws_of_out).collect(), &wm);
         let tx = w.encode(&atx);
@@ -904,7 +907,7 @@ fn run_base(b: &Value) -> Vec<Value> {
             Ok(Err(st)) => json!({"ok": false, "tag": tag_of(st), "sub": false, "canon": false, "same": false}),
             Err(p) => json!({"ok": false, "tag": "panic", "sub": false, "canon": false, "same": false, "msg": p.chars().take(120).collect::<String>()}),
         };
-        rows.push(json!({"k": "raw", "b": b["b"], "id": mu["id"], "m": m, "w": wm, "tx": atx.json(), "ws": ws,
+        rows.push(json!({"k": "raw", "b": b["b"], "id": mu["id"], "m": m, "m2": m2, "w": wm, "tx": atx.json(), "ws": ws,
                          "bytes_eq_canon": tx == canon_tx, "resp": resp}));
         if matches!(r, Err(_)) {
             // a panic may have poisoned a lock of this node: continue on a node rebuilt the same way
